@@ -169,8 +169,8 @@ def parse_address(s):
         if b is not None and b > 15:
             return ("reject", "bit out of range")
         t = m["t"].upper()
-        if b is not None and t in ("F", "L"):
-            return ("dontcare", "bit of a float/long element")
+        if b is not None and t == "F":
+            return ("dontcare", "bit of a float element")
         if c is not None and (c < 1 or b is not None):
             return ("dontcare", "count 0 or count on a bit")
         return dict(kind="ok", file=f, type=t, element=e, sub=0, bit=b, count=c or 1, ctsub=None)
@@ -259,7 +259,7 @@ def expected_read(table, a):
             return v - 65536 if v >= 32768 else v
         return bool(words[o] >> CT_BITS[ty][a["ctsub"]] & 1)
     if a["bit"] is not None:
-        return bool(words[base] >> a["bit"] & 1)
+        return bool(words[base] >> a["bit"] & 1)   # bits 0..15: the low word also for 2-word (long) elements
     vals = [elem(i) for i in range(a["count"])]
     return vals if a["count"] > 1 else vals[0]
 
